@@ -329,6 +329,9 @@ def atr_bytes(sx, name, shape, response):
     code = [0xD5, 0x01] if response else [0xD4, 0x00]
     if kind == "any":
         return sx.bytes(name, n, mutable=True)
+    if kind == "fixed":
+        return sx.mkbytes(code + NFCID3 + [0, 0, 0] + ([8] if response else []) +
+                          [0x32, 0x46, 0x66, 0x6D, 0x01, 0x01, 0x13], True)
     if kind == "hdr":
         return sx.mkbytes(code + list(sx.bytes(name, n)), True)
     # valid: nfcid3, then did bs br (to) symbolic, pp symbolic, n general bytes
@@ -389,6 +392,8 @@ def dep_target_session(sx, brty, atr, first, steps, send_len):
     kind, n = first.split(":")
     if kind == "raw":
         dep_req = sx.bytes("first", int(n), mutable=True)
+    elif kind == "symm":
+        dep_req = sx.mkbytes([0xD4, 0x06, 0x00, 0x00, 0x00], True)
     else:
         dep_req = sx.mkbytes([0xD4, CODES[kind]] + list(sx.bytes("first", int(n))), True)
 
@@ -475,9 +480,11 @@ def partitions(tier):
     for brty in ("106A", "212F"):
         for first in RES:
             for did, send_len, miu in ((None, 3, 61), (7, 5, 3)):
-                if quick and brty == "106A" and did is not None:
+                if did is not None and (first not in ("DEP:1", "DEP:2", "crc", "timeout")
+                                        or (quick and brty == "106A")):
                     continue
-                steps = [[first], RES2, RES2 if not quick else ["timeout", "DEP:1"]]
+                steps = [[first], ["timeout", "DEP:1"]] if quick or did is not None else \
+                    [[first], RES2, ["timeout", "DEP:1"]]
                 add("dep-ix:%s:%s:%s" % (brty, first, did), "dep_initiator_exchange",
                     brty=brty, did=did, send_len=send_len, miu=miu, steps=steps)
     ATR_RES_SHAPES = ["any:0", "any:1", "any:2", "any:3", "hdr:0", "hdr:1", "hdr:9", "hdr:13",
@@ -498,22 +505,21 @@ def partitions(tier):
                     mode=mode, atr=atr, psl=psl, brs=brs)
     REQ = ["timeout", "crc", "raw:0", "raw:3", "DEP:0", "DEP:1", "DEP:2", "DEP:3",
            "ATR:1", "ATR:14", "PSL:3", "PSL:1", "DSL:0", "DSL:1", "RLS:0"]
-    REQ2 = ["timeout", "DEP:1", "DEP:2", "DSL:0", "RLS:1"]
+    REQ2 = ["timeout", "DEP:1", "DEP:2", "DSL:0", "RLS:1", "raw:0"]
     for brty in ("106A", "424F"):
-        for atr in ("valid:0", "valid:3", "any:16", "hdr:14", "hdr:20"):
-            for first in ("DEP:1", "DEP:0", "DEP:2", "DEP:3", "DSL:0", "DSL:1", "RLS:0",
-                          "ATR:14", "PSL:3", "raw:1", "raw:2", "raw:3"):
-                if quick and atr != "valid:3" and first != "DEP:1":
-                    continue
-                if quick and brty == "106A" and first not in ("DEP:1", "DSL:0", "raw:2"):
-                    continue
-                steps = [REQ2, REQ2 if not quick else ["timeout", "DEP:1"]]
-                add("dep-ts:%s:%s:%s" % (brty, atr, first), "dep_target_session",
-                    brty=brty, atr=atr, first=first, steps=steps, send_len=2)
+        for atr in ("valid:0", "valid:3", "any:16", "any:17", "hdr:14", "hdr:20"):
+            add("dep-ta:%s:%s" % (brty, atr), "dep_target_session", brty=brty, atr=atr,
+                first="symm:0", steps=[], send_len=2)
+        for first in ("DEP:1", "DEP:0", "DEP:2", "DEP:3", "DSL:0", "DSL:1", "RLS:0",
+                      "ATR:14", "PSL:3", "raw:1", "raw:2", "raw:3"):
+            add("dep-ts:%s:%s" % (brty, first), "dep_target_session", brty=brty,
+                atr="fixed:0", first=first,
+                steps=[["timeout", "DEP:1", "DSL:0", "raw:0"]], send_len=2)
         for q in REQ:
-            steps = [[q], REQ2, REQ2 if not quick else ["timeout", "DEP:1"]]
+            steps = [[q], ["timeout", "DEP:1", "DSL:0", "raw:0"]] if quick else \
+                [[q], REQ2, ["timeout", "DEP:1"]]
             add("dep-tx:%s:%s" % (brty, q), "dep_target_session", brty=brty,
-                atr="valid:3", first="DEP:1", steps=steps, send_len=5)
+                atr="fixed:0", first="symm:0", steps=steps, send_len=5)
     # (4) type 3 tag emulation
     for n in range(0, (6 if quick else 8) + 1):
         add("tt3:raw:%d" % n, "tt3_command", shape="raw", n=n)
